@@ -1,6 +1,6 @@
 import FlytModel.Generated.IR
 import FlytModel.Expected.IR
-/-! The translation of `runBatchConcurrent` from the CURRENT source is, term for term, the IR the refinement theorems are about. -/
+/-! The translation of `runBatchConcurrent` from the CURRENT source is, term for term, the expected IR. -/
 namespace Flyt.Tie
 theorem runBatchConcurrent : Flyt.Generated.IR.runBatchConcurrent = Flyt.Expected.IR.runBatchConcurrent := rfl
 end Flyt.Tie
